@@ -713,8 +713,90 @@ func TestC08(t *testing.T) {
 		run.Note("max_concurrently_admitted_"+sp.name, maxAdmitted)
 	}
 
+	// a failure and a success recorded at the same moment: whichever is taken first, the
+	// history "success, threshold-1 failures, {failure, success}" ends with the breaker closed
+	// (failure then success: cleared; success then failure: one failure). A breaker that is
+	// left open has combined halves of both updates.
+	recRounds := rep.Pick(40000, 400000)
+	if rep.Mode() == "race" {
+		recRounds = rep.Pick(5000, 50000)
+	}
+	for _, sp := range sps {
+		if sp.kind == kUnifier || sp.name == "health-via-client" {
+			continue // (the unifier breaker serialises its updates with a mutex; the client wrapper has no separate record calls)
+		}
+		for r := 0; r < recRounds; r++ {
+			b := sp.mk()
+			b.Succ()
+			for i := 0; i < sp.FT-1; i++ {
+				b.Fail()
+			}
+			var wg sync.WaitGroup
+			start := make(chan struct{})
+			wg.Add(2)
+			go func() { defer wg.Done(); <-start; b.Fail() }()
+			go func() { defer wg.Done(); <-start; b.Succ() }()
+			close(start)
+			wg.Wait()
+			run.EvalN(1)
+			run.Count("concurrent_record_rounds", 1)
+			if !b.Ask() {
+				run.Violation(fmt.Sprintf("C08/%s/open-after-failure-racing-success", sp.name),
+					fmt.Sprintf("history: success, %d failures, then one failure and one success recorded concurrently (round %d): the breaker refuses, although both orders of the two leave it closed", sp.FT-1, r),
+					map[string]any{"round": r, "threshold": sp.FT})
+				break
+			}
+		}
+	}
+	// permission racing a failing probe (health breaker: at most one probe per second, nothing
+	// while open until the timeout has elapsed since the LAST failure): breaker open and timed
+	// out; A asks while B asks and, if admitted, reports its probe as failed. In every order of
+	// these steps exactly one of the two is admitted.
+	for _, sp := range sps {
+		if sp.name != "health" {
+			continue
+		}
+		for r := 0; r < recRounds*2; r++ {
+			b := sp.mk()
+			for i := 0; i < sp.FT; i++ {
+				b.Fail()
+			}
+			b.Shift(time.Duration((sp.timeout + 5) * float64(time.Second)))
+			var admitted atomic.Int32
+			var wg sync.WaitGroup
+			start := make(chan struct{})
+			wg.Add(2)
+			go func() {
+				defer wg.Done()
+				<-start
+				if b.Ask() {
+					admitted.Add(1)
+				}
+			}()
+			go func() {
+				defer wg.Done()
+				<-start
+				if b.Ask() {
+					admitted.Add(1)
+					b.Fail()
+				}
+			}()
+			close(start)
+			wg.Wait()
+			run.EvalN(1)
+			run.Count("concurrent_probe_rounds", 1)
+			if a := admitted.Load(); a > 1 {
+				run.Violation("C08/health/second-probe-admitted-right-after-a-failed-probe",
+					fmt.Sprintf("open, timed-out breaker; one caller asks while another asks and reports its probe failed (round %d): both were admitted", r),
+					map[string]any{"round": r})
+				break
+			}
+		}
+	}
+
 	run.Require("exhaustive_sequences", 100000)
 	run.Require("concurrent_rounds", 1000)
+	run.Require("concurrent_record_rounds", 1000)
 	run.Finish(t)
 }
 
